@@ -542,6 +542,37 @@ def gen_ops(rng, cfg, pats, n):
     return ops
 
 
+# ---- applications built by SEQUENCES of add_handlers calls with repeated / overlapping host patterns ----
+SEQ_HOSTPATS = ["www\\.example\\.com", "www\\..*", ".*\\.example\\.com", ".*", "www.example.com", "[a-z.]+", "example\\.com", ".*$",
+                "www\\.example\\.com$", "[a-z]+\\.example\\.com"]
+SEQ_PATHS = ["/a", "/b", "/(.*)", "/a/([0-9]+)", "/([a-z]+)", "/c/([^/]+)", "/c/(.*)", "/d", "/b/?"]
+SEQ_HOSTS = ["www.example.com", "WWW.example.com:8080", "example.com", "a.example.com", "other.org", "www.other.org", "www.example.com:80",
+             "example.com:8080", "wwwXexampleYcom"]
+SEQ_URIS = ["/a", "/b", "/a/1", "/zz", "/", "/c/x%20y", "/d", "/b/", "/c/x/y", "/a?x=1"]
+
+
+def gen_hostseq(rng):
+    ids = _Ids()
+    ncalls = rng.choice([3, 3, 4, 5])
+    pats = [rng.choice(SEQ_HOSTPATS) for _ in range(ncalls)]
+    if rng.random() < 0.75:       # force "P ... Q ... P": an earlier pattern is used again later
+        i = rng.randrange(0, ncalls - 2)
+        pats[rng.randrange(i + 2, ncalls)] = pats[i]
+    def rules(n):
+        out = []
+        for _ in range(n):
+            out.append({"k": "path", "pat": rng.choice(SEQ_PATHS), "name": rng.choice(NAMES) if rng.random() < 0.2 else None, "h": ids.next(rng)})
+        return out
+    hosts = [[p, rules(rng.choice([1, 1, 2, 3]))] for p in pats]
+    cfg = {"handlers": rules(rng.choice([0, 1, 2])), "hosts": hosts,
+           "default_host": rng.choice([None, None, "www.example.com", "example.com"]), "dflt": rng.random() < 0.2}
+    return cfg
+
+
+def gen_hostseq_ops(rng, n):
+    return [{"k": "route", "host": rng.choice(SEQ_HOSTS), "uri": rng.choice(SEQ_URIS), "xreal": rng.random() < 0.1} for _ in range(n)]
+
+
 def _case(cfg, op):
     c = dict(cfg)
     c["op"] = op
@@ -603,6 +634,13 @@ def corpus_cases():
         out.append(_case(c7, {"k": "route", "host": "x:80", "uri": uri, "xreal": False}))
     for nm, a in [("pre", ["7"]), ("q", ["ab"]), ("r", [])]:
         out.append(_case(c7, {"k": "reverse", "name": nm, "args": a, "host": "x"}))
+    # add_handlers call order: P, overlapping Q, P again (seeded change C31_3 merged the third call into the first)
+    c8 = {"handlers": [_leaf("/b", 9)], "hosts": [["www.example.com", [_leaf("/a", 1)]], ["www\\..*", [_leaf("/b", 2), _leaf("/c/([^/]+)", 3)]],
+                                                  ["www.example.com", [_leaf("/b", 4), _leaf("/c/(.*)", 5), _leaf("/d", 6)]]],
+          "default_host": None, "dflt": False}
+    for host, uri in [("www.example.com", "/a"), ("www.example.com", "/b"), ("www.example.com:8080", "/b"), ("www.example.com", "/c/x%20y"),
+                      ("www.example.com", "/d"), ("www.other.org", "/b"), ("example.com", "/b")]:
+        out.append(_case(c8, {"k": "route", "host": host, "uri": uri, "xreal": False}))
     c6 = {"handlers": [_leaf("/h", 1)], "hosts": [["ex\\$", [_leaf("/h", 2)]], ["example\\.com", [_leaf("/h", 3)]]], "default_host": None, "dflt": False}
     for host in ["ex$", "ex$tra", "example.com", "example.com.evil", "example.com:8080", "EXAMPLE.com:1", "example.com:", "ex$:5"]:
         out.append(_case(c6, {"k": "route", "host": host, "uri": "/h", "xreal": False}))
@@ -626,6 +664,26 @@ def gen_cases(rng, tier):
         cfg, pats = gen_config(rng)
         for op in gen_ops(rng, cfg, pats, per):
             out.append(_case(cfg, op))
+    for _ in range(60 if tier == "quick" else 500):
+        cfg = gen_hostseq(rng)
+        for op in gen_hostseq_ops(rng, 6):
+            out.append(_case(cfg, op))
+    if tier == "thorough":   # exhaustive: every sequence of 3 add_handlers calls over 3 overlapping host patterns x 2 rule sets
+        hp = ["www\\.example\\.com", "www\\..*", ".*"]
+        rs = [["/a"], ["/b", "/(.*)"]]
+        for trip in itertools.product(range(3), repeat=3):
+            for rr in itertools.product(range(2), repeat=3):
+                n = [0]
+                def mk(pl):
+                    o = []
+                    for q in pl:
+                        n[0] += 1
+                        o.append({"k": "path", "pat": q, "name": None, "h": n[0]})
+                    return o
+                cfg = {"handlers": mk(["/b"]), "hosts": [[hp[trip[i]], mk(rs[rr[i]])] for i in range(3)], "default_host": None, "dflt": False}
+                for host in ["www.example.com:8080", "www.other.org", "example.com"]:
+                    for uri in ["/a", "/b", "/c"]:
+                        out.append(_case(cfg, {"k": "route", "host": host, "uri": uri, "xreal": False}))
     # small-scope exhaustive: every path over a 5-letter alphabet up to a length bound
     base = {"hosts": [], "default_host": None, "dflt": False}
     alpha = "/a1%\n"
@@ -752,7 +810,8 @@ ASSUMPTIONS = [
     "Host header values are ASCII; a port, if any, is shorter than int()'s 4300-digit limit",
 ]
 RULE = ("random Application configurations (1-5 top rules, nested routers behind path/host/any matchers, 0-2 add_handlers host groups, "
-        "optional default_host/default handler, duplicate names) x 8 operations each: paths sampled from a rule's own pattern language then mutated "
+        "optional default_host/default handler, duplicate names; plus applications built by sequences of 3-5 add_handlers calls with repeated and "
+        "overlapping host patterns, Host values with ports; thorough: every sequence of 3 calls over 3 overlapping patterns) x 8 operations each: paths sampled from a rule's own pattern language then mutated "
         "(trailing LF, extra/missing characters, percent escapes valid and invalid, non-ASCII, query), or reverse_url with arguments sampled from the "
         "group languages, wrong counts and unrepresentable arguments, followed by routing the returned URL; plus every path over the alphabet "
         "{/,a,1,%,LF} up to length 3 (quick) / 5 (thorough) on 5 small ambiguous rule tables (one with precompiled patterns); distinct by (rules, op); non-trivial = a handler or URL result")
